@@ -403,8 +403,9 @@ def record_str_events(rng, n):
 
 
 def part_strfns(o: Outcome, thorough: bool):
-    r = tlc("MC_StrFns", "MC_StrFns_T.cfg" if thorough else "MC_StrFns.cfg", workers=16, timeout=3000)
+    r = tlc("MC_StrFns", "MC_StrFns_T.cfg" if thorough else "MC_StrFns.cfg", workers=16, timeout=3000, coverage=not thorough)
     o.add_tlc("MC_StrFns", r)
+    o.extra["action_coverage"].update({"MC_StrFns:" + k: v[1] for k, v in r.coverage_actions().items()})
     for cfg, inv in (("Demo_StrFns_titleparts.cfg", "titleparts"), ("Demo_StrFns_plural.cfg", "plural")):
         r = tlc("MC_StrFns", cfg, workers=4, check=False)
         o.extra[f"demo_{inv}_asis_violates"] = bool(r.invariant_violated)
@@ -498,8 +499,9 @@ def _eval_formatnum(jobs):
 
 
 def part_formatnum(o: Outcome, thorough: bool):
-    r = tlc("MC_FormatNum", "MC_FormatNum.cfg", workers=8, timeout=3000)
+    r = tlc("MC_FormatNum", "MC_FormatNum.cfg", workers=8, timeout=3000, coverage=True)
     o.add_tlc("MC_FormatNum", r)
+    o.extra["action_coverage"].update({"MC_FormatNum:" + k: v[1] for k, v in r.coverage_actions().items()})
     r = tlc("MC_FormatNum", "Demo_FormatNum_asis.cfg", workers=4, check=False)
     o.extra["demo_formatnum_asis_violates"] = bool(r.invariant_violated)
     if not r.invariant_violated:
@@ -666,7 +668,7 @@ def selftest() -> int:
     S = lambda t: {"k": "s", "s": atoms_of(t), "i": 0}
     I = lambda i: {"k": "i", "s": [], "i": i}
     calls = [("#sub", [S("Icecream"), I(3), I(-3)]), ("#pos", [S("abcabc"), S("c"), I(3)]), ("#explode", [S("a,b,c"), S(","), I(-1)]),
-             ("lc", [S(" AbÉ ")]), ("#replace", [S("aaa"), S("aa"), S("b")])]
+             ("lc", [S(" XbÉ ")]), ("#replace", [S("aaa"), S("aa"), S("b")])]
     res = _record_calls(calls)
     events = [{"fn": fn, "args": args, "out": out_record(fn, out)} for (fn, args), (k, out) in zip(calls, res)]
     b0 = validate_str_trace(None, events)
